@@ -1,6 +1,7 @@
 import TarpcModel.Driver.Show
 import TarpcModel.Monitors.Server
 import TarpcModel.Server.Settle
+import TarpcModel.Monitors.NoPanic
 /- Family `srv`: one server connection (Requests stream + executions) over a SimTransport. -/
 namespace TarpcModel.Driver
 open TarpcModel TarpcModel.Server
@@ -70,10 +71,11 @@ structure SrvMon where
   c14 : Server.Mon Client.C14St := { st := {} }
   c18 : Server.Mon Unit := { st := () }
   c02 : Option String := none
+  c16 : Option String := none
   garbled : Option String := none
 
 def SrvMon.feed (m : SrvMon) (e : SEv) : SrvMon :=
-  { m with c04 := Server.Mon.step checkC04 m.c04 e, c06 := Server.Mon.step checkC06 m.c06 e,
+  { m with c16 := m.c16.orElse (fun _ => match e with | .obs o => panicOf o | _ => none), c04 := Server.Mon.step checkC04 m.c04 e, c06 := Server.Mon.step checkC06 m.c06 e,
            c06s := Server.Mon.step checkC06Stall m.c06s e,
            c08 := Server.Mon.step checkC08 m.c08 e, c09 := Server.Mon.step Server.checkC09 m.c09 e,
            c10 := Server.Mon.step Server.checkC10 m.c10 e, c11 := Server.Mon.step Server.checkC11 m.c11 e,
@@ -83,7 +85,7 @@ def SrvMon.feed (m : SrvMon) (e : SEv) : SrvMon :=
 def SrvMon.verdict (m : SrvMon) : Option String :=
   let fs := [("C04", m.c04.bad), ("C06", m.c06.bad.orElse fun _ => m.c06s.bad), ("C08", m.c08.bad), ("C09", m.c09.bad),
              ("C10", m.c10.bad), ("C11", m.c11.bad), ("C12", m.c12.bad), ("C14", m.c14.bad), ("C18", m.c18.bad),
-             ("C02", m.c02), ("PARSE", m.garbled)]
+             ("C02", m.c02), ("C16", m.c16), ("PARSE", m.garbled)]
   let bad := fs.filterMap fun (p, b) => b.map fun w => s!"[{p}] {w}"
   if bad.isEmpty then none else some (" ;; ".intercalate bad)
 
